@@ -101,6 +101,7 @@ type Options struct {
 	SMTLogDir   string
 	TaskTimeout time.Duration
 	Trace       bool
+	CaseLimit   map[string]int
 }
 
 type worker struct {
@@ -295,6 +296,10 @@ func (w *worker) runTask(t Task) (res TaskResult) {
 			ex.Incomplete = append(ex.Incomplete, fmt.Sprintf("task time budget exhausted with %d prefixes pending", len(ex.work)))
 			break
 		}
+		if len(ex.Incomplete) >= 25 {
+			ex.Incomplete = append(ex.Incomplete, fmt.Sprintf("task abandoned after %d incomplete paths with %d prefixes pending", len(ex.Incomplete), len(ex.work)))
+			break
+		}
 		prefix := ex.work[len(ex.work)-1]
 		ex.work = ex.work[:len(ex.work)-1]
 		w.runPath(ex, fn, prefix)
@@ -426,6 +431,9 @@ func RunAll(prog *ssa.Program, pkgPath string, harnesses []string, onlyCase int,
 		n, err := w0.countCases(pkgPath, h)
 		if err != nil {
 			return nil, err
+		}
+		if lim, ok := opts.CaseLimit[h]; ok && lim < n {
+			n = lim
 		}
 		for k := 0; k < n; k++ {
 			if onlyCase >= 0 && k != onlyCase {
